@@ -729,7 +729,9 @@ func (b *backend) Put(w http.ResponseWriter, r *http.Request) error {
 		w.Header().Set("Last-Modified", co.ModTime.UTC().Format(http.TimeFormat))
 	}
 	if co.Path != "" {
-		w.Header().Set("Location", co.Path)
+		// the object path is not URL-encoded
+		location := url.URL{Path: co.Path}
+		w.Header().Set("Location", location.String())
 	}
 
 	// TODO: http.StatusNoContent if the resource already existed
